@@ -1,4 +1,6 @@
 import SSV.Model.Relay
+import SSV.Proofs.RelayStep
+import SSV.Proofs.RelayReply
 /-
 C11 — property theorems (model: SSV/Model/Relay.lean; invariants: SSV/Proofs/Relay.lean).
 
@@ -21,6 +23,24 @@ unpack, lookup/insert/enqueue happen under the mutex, and the cleanup closes the
 under the same mutex; every other `UDPClient` builds its packer inside `NewSession`. -/
 theorem code_facts : codeRecvOK = true ∧ codeCleanupOK = true ∧ SSV.Gen.C11.clientPackerFresh.all (·.2) = true := by
   decide
+
+/-- **no_cross_session_send.** In every reachable state of every interleaving, if sessions do not share a
+packer instance, each datagram an uplink put on the wire was made from a packet the receive loop accepted for
+THAT session incarnation, carries that packet (payload), and is addressed to the target the packet names:
+the literal IP and port, or — for a domain target — an address the resolver answered for that very domain, same port. -/
+theorem no_cross_session_send (cfg : Config) (hinj : ∀ a b, cfg.packerOf a = cfg.packerOf b → a = b)
+    (acts : List Act) :
+    ∀ w ∈ (run cfg State.init acts).sent,
+      (∃ src, (w.sid, src, w.pkt) ∈ (run cfg State.init acts).recvd) ∧
+      destOK (run cfg State.init acts).answers w :=
+  Relay.sent_ok cfg hinj acts
+
+/-- … instantiated with what the source says now (every protocol parameter free). -/
+theorem no_cross_session_send_code (cap : Nat) (byAddr src : Bool) (acts : List Act) :
+    ∀ w ∈ (run (codeConfig cap byAddr src) State.init acts).sent,
+      (∃ a, (w.sid, a, w.pkt) ∈ (run (codeConfig cap byAddr src) State.init acts).recvd) ∧
+      destOK (run (codeConfig cap byAddr src) State.init acts).answers w :=
+  no_cross_session_send _ code_packer_per_session acts
 
 example : ∃ cfg : Config, ∀ a b, cfg.packerOf a = cfg.packerOf b → a = b :=
   ⟨⟨4, true, true, false, fun s => s⟩, fun _ _ h => h⟩
@@ -63,9 +83,40 @@ theorem garbage_is_noop_code (cap : Nat) (byAddr src : Bool) (st : State) (key :
 /-- had the insert preceded the unpack, garbage WOULD create a session (the model can tell the difference) -/
 example : (step ⟨4, true, true, true, fun s => s⟩ State.init (.recv 1 1 none)).next = 1 := by decide
 
+/-- **replies_to_owner.** Every reply a downlink wrote is addressed to the source address of the most
+recent packet accepted for that session incarnation at the time of sending (its owner's LATEST address),
+carries the true source exactly when the protocol has a source field, and — for address-keyed relays —
+that address is the session's key. (`insertFirst = false`: sessions exist only through an accepted packet.) -/
+theorem replies_to_owner (cfg : Config) (hif : cfg.insertFirst = false) (acts : List Act) :
+    ∀ r ∈ (run cfg State.init acts).replies,
+      lastAddr ((run cfg State.init acts).recvd.take r.stamp) r.sid = some r.to ∧
+      r.src = (if cfg.carriesSource then some r.fromSrc else none) ∧
+      (cfg.byAddr = true → ∃ s, (run cfg State.init acts).sess r.sid = some s ∧ r.to = s.key) :=
+  Relay.replies_ok cfg hif acts
+
+theorem replies_to_owner_code (cap : Nat) (byAddr src : Bool) (acts : List Act) :
+    ∀ r ∈ (run (codeConfig cap byAddr src) State.init acts).replies,
+      lastAddr ((run (codeConfig cap byAddr src) State.init acts).recvd.take r.stamp) r.sid = some r.to ∧
+      r.src = (if src then some r.fromSrc else none) ∧
+      (byAddr = true → ∃ s, (run (codeConfig cap byAddr src) State.init acts).sess r.sid = some s ∧ r.to = s.key) :=
+  replies_to_owner _ (by simp [codeConfig, code_facts.1]) acts
+
 example : (run ⟨4, false, true, false, fun s => s⟩ State.init
     [.recv 9 1 (some ⟨.ip 5 53, 100⟩), .initOk 0, .recv 9 2 (some ⟨.ip 5 53, 101⟩), .down 0 (some ((5, 53), 300))]).replies
     = [⟨0, 2, some (5, 53), (5, 53), 300, 2⟩] := by decide
+
+/-- **ss2022_follows_address.** In a session-keyed relay, a packet that unpacks for an existing session
+arriving from a NEW client address creates no new session: the table is unchanged, the same incarnation
+stays, and its published client address becomes the new one (so by `replies_to_owner` later replies go there). -/
+theorem ss2022_follows_address (cfg : Config) (hif : cfg.insertFirst = false) (hb : cfg.byAddr = false)
+    (acts : List Act) (key : Key) (sid : Nat) (src : Addr) (q : Pkt)
+    (ht : (run cfg State.init acts).table key = some sid) :
+    (step cfg (run cfg State.init acts) (.recv key src (some q))).table = (run cfg State.init acts).table ∧
+    (step cfg (run cfg State.init acts) (.recv key src (some q))).next = (run cfg State.init acts).next ∧
+    ∃ s, (step cfg (run cfg State.init acts) (.recv key src (some q))).sess sid = some s ∧ s.clientAddr = src ∧ s.key = key :=
+  Relay.follows_address cfg hif hb acts key sid src q ht
+
+example : (run ⟨4, false, true, false, fun s => s⟩ State.init [.recv 9 1 (some ⟨.ip 5 53, 100⟩)]).table 9 = some 0 := by decide
 
 /-- address-keyed relays: a datagram from another address never reaches this session (its key IS its address) -/
 theorem nat_keyed_by_address (cfg : Config) (hb : cfg.byAddr = true) (st : State) (key : Key) (src : Addr)
@@ -76,7 +127,12 @@ end SSV.C11
 
 #print axioms SSV.C11.code_packer_per_session
 #print axioms SSV.C11.code_facts
+#print axioms SSV.C11.no_cross_session_send
+#print axioms SSV.C11.no_cross_session_send_code
 #print axioms SSV.C11.shared_packer_cross_send
 #print axioms SSV.C11.garbage_is_noop
 #print axioms SSV.C11.garbage_is_noop_code
+#print axioms SSV.C11.replies_to_owner
+#print axioms SSV.C11.replies_to_owner_code
+#print axioms SSV.C11.ss2022_follows_address
 #print axioms SSV.C11.nat_keyed_by_address
